@@ -136,6 +136,10 @@ def run(ctx, full=False, label="rogue-server", only=None):
         hits += rogue_content_dfs(ctx, label + "-content")
         hits += key_release_oracle(ctx, label + "-keys")
         hits += refusal_oracle(ctx, label + "-refusals")
+        hits += bad_certificate_refusals(ctx, label + "-badcert")
+        hits += binder_refusals(ctx, label + "-binder")
+        hits += quic_bad_cert_split(ctx, label + "-quic-badcert-split", thorough=getattr(ctx, "tier", "quick") == "thorough")
+        hits += quic_binder_refusals(ctx, label + "-quic-binder")
     return hits
 
 
@@ -503,6 +507,303 @@ def refusal_oracle(ctx, label="refusals", only=None):
     return hits
 
 
+def _frames(blob):
+    out, pos = [], 0
+    while pos + 4 <= len(blob):
+        n = 4 + int.from_bytes(blob[pos + 1:pos + 4], "big")
+        out.append(blob[pos:pos + n])
+        pos += n
+    return out
+
+
+def _locate(msgs, k):
+    """byte offset k of a flight -> (message index, offset in it): fresh certificates and signatures differ
+    in length from run to run, a replayed cut is placed relative to the message it fell into"""
+    pos = 0
+    for i, m in enumerate(msgs):
+        if k < pos + len(m):
+            return [i, k - pos]
+        pos += len(m)
+    return [len(msgs), k - pos]
+
+
+def _unlocate(msgs, loc):
+    i, off = loc
+    return sum(len(m) for m in msgs[:i]) + (min(off, len(msgs[i]) - 1) if i < len(msgs) else off)
+
+
+def bad_certificate_refusals(ctx, label="bad-certificate-refusals", only=None):
+    """Refusal points that are about the CERTIFICATE, not the signature: a server that genuinely holds
+    the key of a certificate the client must not accept (untrusted self-signed / expired / valid for
+    another name) and signs correctly.  (1) delivered message by message: the CertificateVerify is
+    refused with an alert, releases nothing and leaves the client exactly as it was (strict digest);
+    whatever is delivered AFTER the refusal — the connection keeps handing CRYPTO data to the TLS engine
+    until it has sent its close — must not let the client complete.  (2) the whole server flight cut
+    into two deliveries at EVERY byte boundary, the second delivered even if the first raised."""
+    from aioquic import tls
+    from . import quicpair as Q
+    D.tap_extract()
+    POST = tls.State.CLIENT_POST_HANDSHAKE
+    good = Q.make_cert("ec256", name="localhost")
+    cases = {
+        "untrusted": (Q.make_cert("ec256", name="localhost"), good[0]),          # client trusts another certificate
+        "expired": ((lambda c: (c, c[0]))(Q.make_cert("ec256", name="localhost", days=(-10, -1)))),
+        "wrong-name": ((lambda c: (c, c[0]))(Q.make_cert("ec256", name="evil.example"))),
+    }
+    n = hits = 0
+
+    def fresh(kind):
+        (cert, key), anchor = cases[kind]
+        p = D.Pair(D.client(server_name="localhost", cadata=D.pem(anchor)), D.server(ident=(cert, [], key)))
+        p.hello()
+        assert p.serve() is None
+        return p
+
+    def report(kind, how, problems, extra):
+        nonlocal hits
+        hits += 1
+        ctx.witness(f"server with a genuine key but a certificate the client must refuse ({kind}), {how}: " + "; ".join(problems),
+                    dict({"kind": "bad-cert-refusal", "case": kind, "how": how, "problems": problems}, **extra),
+                    {"oracle": "refused-message-changes-state" if "split" not in how else "completes-without-authentication",
+                     "certificate": kind, "delivery": how.split(" ")[0]})
+
+    for kind in cases:
+        if only is not None and only[0] != kind:
+            continue
+        # ---- (1) message by message
+        if only is None or only[1] == "message-by-message":
+            p = fresh(kind)
+            kt = D.KeyTap(p.c)
+            problems, refused = [], False
+            for m in p.server_flight:
+                before, k0 = D.digest(p.c), len(kt.calls)
+                exc, _ = D.feed(p.c, m)
+                if exc is not None:
+                    refused = True
+                    if not isinstance(exc, tls.Alert):
+                        problems.append(f"message type {m[0]} raised {type(exc).__name__}, not an alert")
+                    if len(kt.calls) != k0:
+                        problems.append(f"traffic secrets released while refusing message type {m[0]}: {kt.names(k0)}")
+                    changed = D.digest_diff(before, D.digest(p.c))
+                    if changed:
+                        problems.append(f"the refused message type {m[0]} changed {changed}")
+            if not refused:
+                problems.append("no message of the flight was refused")
+            if p.c.state == POST:
+                problems.append("the client reached CLIENT_POST_HANDSHAKE")
+            n += 1
+            ctx.count((label, kind, "messages"), True)
+            if problems:
+                report(kind, "message-by-message delivery (continuing after the alert)", problems,
+                       {"server_messages": [m.hex() for m in p.server_flight]})
+        # ---- (2) every byte boundary
+        if only is None or only[1] == "split":
+            size = len(b"".join(fresh(kind).server_flight))
+            ks = range(size + 8) if only is None else [None]
+            for k in ks:
+                p = fresh(kind)
+                blob = b"".join(p.server_flight)
+                if k is None:
+                    k = _unlocate(p.server_flight, only[2])
+                D.feed(p.c, blob[:k])
+                D.feed(p.c, blob[k:])
+                n += 1
+                if p.c.state == POST:
+                    ctx.count((label, kind, "split", k), True)
+                    report(kind, f"split flight: delivered in two pieces cut at byte {k} (second piece delivered after the "
+                                 f"first raised)", ["the client reached CLIENT_POST_HANDSHAKE"],
+                           {"split_at": k, "split_in_message": _locate(p.server_flight, k), "flight": blob.hex()})
+                    break
+            ctx.count((label, kind, "split"), True)
+    ctx.notes[label] = {"cases": n, "violations": hits}
+    return hits
+
+
+def binder_refusals(ctx, label="binder-refusals", only=None):
+    """a resumed ClientHello naming a VALID ticket identity and offering early data whose binder does
+    not verify (computed from a wrong secret, last byte flipped, truncated), on a server with a ticket
+    store and early data enabled: it is refused and, before that, nothing may have been handed out —
+    no traffic secret (in particular no 0-RTT read secret), `early_data_accepted` and
+    `session_resumed` stay False, the state does not move.  A wrong identity with a right binder is
+    not resumed."""
+    import dataclasses
+    from aioquic import tls
+    from aioquic.buffer import Buffer
+    D.tap_extract()
+    store = S.ticket_store(max_early_data=0xFFFFFFFF)
+    ticket = store.client[0]
+    n = hits = 0
+
+    def hello(tk):
+        c = D.client()
+        c.session_ticket = tk
+        exc, out = D.feed(c, b"")
+        assert exc is None
+        return out
+
+    def reencode(ch, f):
+        h = tls.pull_client_hello(Buffer(data=ch))
+        f(h)
+        b = Buffer(capacity=len(ch) + 64)
+        tls.push_client_hello(b, h)
+        return b.data
+
+    good = hello(ticket)
+    variants = [("binder from a wrong secret", hello(dataclasses.replace(ticket, resumption_secret=bytes(len(ticket.resumption_secret)))), True),
+                ("binder last byte flipped", good[:-1] + bytes([good[-1] ^ 1]), True)]
+    for k in (0, 1, 16, 31, 32, 47):
+        variants.append((f"binder truncated to {k} bytes",
+                         reencode(good, lambda h, k=k: h.pre_shared_key.binders.__setitem__(0, h.pre_shared_key.binders[0][:k])), True))
+    variants.append(("unknown identity with the right binder",
+                     reencode(good, lambda h: h.pre_shared_key.identities.__setitem__(0, (b"unknown-" + h.pre_shared_key.identities[0][0][8:], h.pre_shared_key.identities[0][1]))), False))
+    for name, ch, must_refuse in variants:
+        if only is not None and only != name:
+            continue
+        s = S.resumed_pair(store).s
+        kt = D.KeyTap(s)
+        st0 = s.state
+        exc, _ = D.feed(s, ch)
+        problems = []
+        zero = [x for x in kt.names() if x.endswith("ZERO_RTT")]
+        if must_refuse:
+            if exc is None:
+                problems.append("the ClientHello was accepted")
+            elif not isinstance(exc, tls.Alert):
+                problems.append(f"raised {type(exc).__name__}, not an alert")
+            if kt.calls:
+                problems.append(f"traffic secrets were released before the binder was checked: {kt.names()}")
+            if s.state != st0:
+                problems.append(f"state moved to {s.state.name}")
+        if zero and (must_refuse or not s.session_resumed):
+            problems.append(f"0-RTT read secret released: {zero}")
+        if s.early_data_accepted and (exc is not None or not s.session_resumed):
+            problems.append("early_data_accepted was set")
+        if s.session_resumed and (must_refuse or "unknown identity" in name):
+            problems.append("session_resumed was set")
+        n += 1
+        ctx.count((label, name), True)
+        if problems:
+            hits += 1
+            ctx.witness(f"server with ticket store and early data, resumed ClientHello with {name}: " + "; ".join(problems),
+                        {"kind": "binder-refusal", "variant": name, "client_hello": ch.hex(), "problems": problems},
+                        {"oracle": "key-before-authentication" if zero or kt.calls else "refused-message-changes-state",
+                         "binder": name.split(" ")[0] + " " + name.split(" ")[1]})
+    ctx.notes[label] = {"cases": n, "violations": hits}
+    return hits
+
+
+def quic_bad_cert_split(ctx, label="quic-bad-certificate-split", thorough=False, only=None, seed=6100):
+    """QUIC level of `bad_certificate_refusals`: a real QuicConnection server with an untrusted self-signed
+    certificate; its Handshake-level CRYPTO flight is cut at byte k into two datagram batches, both handed to
+    the client WITHOUT a transmit in between (the client decides to close on the first but only acts on it
+    when it next sends).  The client must never report HandshakeCompleted.  quick: every message boundary
+    -1/0/+1 and a stride; thorough: every byte."""
+    from aioquic import tls
+    from aioquic.quic.rangeset import RangeSet
+    from . import sim as simmod, quicpair as Q
+    cert, key = Q.make_cert("ec256", name="localhost")
+
+    def attempt(loc):       # loc = (message index, offset in it): signatures differ in length between attempts
+        s = simmod.Sim(seed, client_options={"server_name": "localhost"}, server_options={})
+        try:
+            sc = s.server.conn
+            sc._configuration.certificate, sc._configuration.certificate_chain, sc._configuration.private_key = cert, [], key
+            s.connect()
+            for d in list(s.pending):
+                s.api(s.server, "receive_datagram", d["data"], d["from"], now=s.now)
+            s.pending.clear()
+            snd = sc._crypto_streams[tls.Epoch.HANDSHAKE].sender
+            full = bytes(snd._buffer)
+            if loc is None:
+                return full
+            k = _unlocate(_frames(full), loc)
+            snd._buffer, snd._buffer_stop, snd._pending = bytearray(full[:k]), k, RangeSet()
+            if k:
+                snd._pending.add(0, k)
+            s.transmit(s.server)
+            if k < len(full):
+                snd.write(full[k:])
+                s.transmit(s.server)
+            batch = list(s.pending)
+            s.pending.clear()
+            for d in batch:
+                s.api(s.client, "receive_datagram", d["data"], d["from"], now=s.now)
+            s.transmit(s.client)
+            names = [type(e).__name__ for _, e in s.client.events]
+            return "HandshakeCompleted" in names, names, [d["data"].hex() for d in batch], k, len(full)
+        finally:
+            s.close_taps()
+
+    full = attempt(None)
+    if only is not None:
+        ks = [only]
+    elif thorough:
+        ks = [_locate(_frames(full), k) for k in range(len(full) + 1)]
+    else:
+        bounds, pos = set(), 0
+        while pos < len(full):
+            pos += 4 + int.from_bytes(full[pos + 1:pos + 4], "big")
+            bounds.update((pos - 1, pos, pos + 1))
+        ks = [_locate(_frames(full), k) for k in sorted(bounds | set(range(0, len(full), 61))) if 0 <= k <= len(full)]
+        ks += [[i, len(m) - 1] for i, m in enumerate(_frames(full))]
+    hits = 0
+    for loc in ks:
+        done, names, dgrams, k, size = attempt(loc)
+        ctx.count((label, tuple(loc)), True)
+        if done:
+            hits += 1
+            ctx.witness(f"QUIC client, server with an untrusted self-signed certificate, Handshake CRYPTO flight cut at byte {k} "
+                        f"of {size} (message #{loc[0]} of the flight, offset {loc[1]}) into two datagram batches delivered without a transmit in between: the client "
+                        f"reported HandshakeCompleted (events {names})",
+                        {"kind": "quic-bad-cert-split", "split_at": k, "split_in_message": list(loc), "seed": seed, "datagrams_to_client": dgrams},
+                        {"oracle": "completes-without-authentication", "level": "quic", "delivery": "split"})
+            break
+    ctx.notes[label] = {"cases": len(ks), "violations": hits}
+    return hits
+
+
+def quic_binder_refusals(ctx, label="quic-binder-refusals", only=None, seed=6200):
+    """QUIC level of `binder_refusals`: a ticket earned on a real connection is offered again with early data,
+    with a resumption secret the server does not share (wrong binder) / under an identity the server does not
+    know.  The server's 0-RTT receive keys must never become valid and nothing may be resumed."""
+    import dataclasses
+    from aioquic import tls
+    from . import quicpair as Q
+    store = S.TicketStore()
+    r1 = Q.run(seed, {}, {}, tickets=store)
+    if not (r1.client["completed"] and r1.tickets):
+        ctx.witness("no session ticket from a first connection", {}, {"oracle": "no-ticket"})
+        return 1
+    t = r1.tickets[0]
+    variants = {"wrong resumption secret": dataclasses.replace(t, resumption_secret=bytes(len(t.resumption_secret))),
+                "unknown identity": dataclasses.replace(t, ticket=b"unknown-" + t.ticket[8:])}
+    hits = 0
+    for i, (name, tk) in enumerate(variants.items()):
+        if only is not None and only != name:
+            continue
+        res = Q.run(seed + 1 + i, {}, {}, tickets=store, offer_ticket=tk)
+        sconn = res.sim.server.conn
+        problems = []
+        if sconn._cryptos[tls.Epoch.ZERO_RTT].recv.is_valid():
+            problems.append("the server installed 0-RTT receive keys")
+        if any(k.startswith("CLIENT_EARLY") for k in res.server["secrets"]):
+            problems.append("the server derived and logged a client early traffic secret")
+        for side in ("client", "server"):
+            info = getattr(res, side)
+            if info["completed"] and (info["event"][1] or info["event"][2]):
+                problems.append(f"{side} HandshakeCompleted with session_resumed={info['event'][1]} early_data_accepted={info['event'][2]}")
+        if name == "wrong resumption secret" and res.server["completed"]:
+            problems.append("the server completed the handshake")
+        ctx.count((label, name), True)
+        if problems:
+            hits += 1
+            ctx.witness(f"QUIC server with ticket store, ticket re-offered with early data and {name}: " + "; ".join(problems),
+                        {"kind": "quic-binder-refusal", "variant": name, "seed": seed, "problems": problems},
+                        {"oracle": "key-before-authentication", "level": "quic", "binder": name})
+    ctx.notes[label] = {"cases": len(variants), "violations": hits}
+    return hits
+
+
 def replay(rep):
     """re-execute a recorded rogue / genuine-server flight on the current tree;
     returns the list of witnesses it produces again (empty = no longer failing)"""
@@ -512,6 +813,15 @@ def replay(rep):
         rogue_content_dfs(ctx, label="replay", only=(rep["offers"], rep["sh"], rep["ee"], rep["cert"], rep["flight"]))
     elif rep.get("kind") == "key-release":
         key_release_oracle(ctx, label="replay")
+    elif rep.get("kind") == "bad-cert-refusal":
+        bad_certificate_refusals(ctx, label="replay", only=(rep["case"], "split" if "split_at" in rep else "message-by-message",
+                                                             rep.get("split_in_message")))
+    elif rep.get("kind") == "quic-bad-cert-split":
+        quic_bad_cert_split(ctx, label="replay", only=rep["split_in_message"], seed=rep["seed"])
+    elif rep.get("kind") == "quic-binder-refusal":
+        quic_binder_refusals(ctx, label="replay", only=rep["variant"], seed=rep["seed"])
+    elif rep.get("kind") == "binder-refusal":
+        binder_refusals(ctx, label="replay", only=rep["variant"])
     elif rep.get("kind") == "refusal":
         refusal_oracle(ctx, label="replay", only=(rep["variant"], rep["receiver"], rep["type"]))
     elif rep.get("kind") == "rogue":
